@@ -19,7 +19,7 @@ STAGES = {
 
 STAGES["C10"] = [
     dict(name="tree", pkg="z", test="TestVf_C10", replay_test="TestVfReplay_C10",
-         quick=(3000, 1), thorough=(30000, 16), crash_is_violation=True),
+         quick=(1500, 2), thorough=(30000, 16), crash_is_violation=True),
 ]
 STAGES["C16"] = [
     dict(name="ptree", pkg="z", test="TestVf_C16", replay_test="TestVfReplay_C16",
